@@ -1583,7 +1583,7 @@ class _NP(object):
         if isinstance(fp, ArrBase) and fp.ndim == 1:
             j = c.fresh('ij', 'int')
             g = sym.implies(sym.and_(j >= 0, sym.cmp('<', j, fp.shape[0])), sym.cmp('>=', fp.get(j), 0))
-            v, _m, _b, _r = sym.discharge(c.hyps([j]), sym.zbool(g) if isinstance(g, SV) else z3.BoolVal(bool(g)), 3000)
+            v, _m, _b, _r = sym.discharge(c.hyps([j]), sym.zbool(g) if isinstance(g, SV) else z3.BoolVal(bool(g)), 3000, quick=True)
             nonneg = v == 'proved' and (left is None or _generic(left) == 0) and (right is None or _generic(right) == 0)
         if isinstance(x, ArrBase):
             F = c.fresh_fn('interp', x.ndim, 'real')
